@@ -190,39 +190,43 @@ theorem destroy_unauthorised_noop (n : Node) (signer cid : Nat) (ok : Bool) (rea
     simp only [Bool.not_true, Bool.false_eq_true, if_false, hvia, hloc]
 
 /-- whatever a destroy does, it only touches the entry it names (and, for a relay, its pair) and what it removes
-    was authorised: each table is either unchanged or lost exactly the entry whose adjacent peer signed -/
+    was authorised: each table is either unchanged or is the result of the removal (`rmRelays` / `rmExit` / `rmCircuit`:
+    the entry is popped — or, with remove_tunnel_delay > 0, only scheduled: circuit closed, pop later) of exactly the
+    entry whose adjacent peer signed -/
 theorem destroy_only_by_neighbour (n : Node) (signer cid : Nat) (ok : Bool) (reason : Nat) :
     let r := onDestroy (B := B) n signer cid ok reason
     (r.1.relays = n.relays ∨
       (ok = true ∧ ∃ nx pv, get n.relays cid = some nx ∧ get n.relays nx.next = some pv ∧ pv.hop.peer = signer ∧
-        r.1.relays = del (del n.relays cid) nx.next)) ∧
+        r.1.relays = (rmRelays n cid nx.next).relays)) ∧
     (r.1.exits = n.exits ∨
-      (ok = true ∧ ∃ e, get n.exits cid = some e ∧ e.hop.peer = signer ∧ r.1.exits = del n.exits cid)) ∧
+      (ok = true ∧ ∃ e, get n.exits cid = some e ∧ e.hop.peer = signer ∧ r.1.exits = (rmExit n cid).exits)) ∧
     (r.1.circuits = n.circuits ∨
       (ok = true ∧ ∃ c, get n.circuits cid = some c ∧ c.firstHop.map Hop.peer = some signer ∧
-        r.1.circuits = del n.circuits cid)) := by
+        r.1.circuits = (rmCircuit n cid).circuits)) := by
   have hcirc : let r := destroyCircuit (B := B) n signer cid
       r.1.relays = n.relays ∧ r.1.exits = n.exits ∧
       (r.1.circuits = n.circuits ∨ ∃ c, get n.circuits cid = some c ∧ c.firstHop.map Hop.peer = some signer ∧
-        r.1.circuits = del n.circuits cid) := by
+        r.1.circuits = (rmCircuit n cid).circuits) := by
     unfold destroyCircuit
     cases hc : get n.circuits cid with
     | none => exact ⟨rfl, rfl, Or.inl rfl⟩
     | some c =>
       by_cases hsc : c.firstHop.map Hop.peer = some signer
-      · dsimp only; rw [if_pos hsc]; exact ⟨rfl, rfl, Or.inr ⟨c, rfl, hsc, rfl⟩⟩
+      · dsimp only; rw [if_pos hsc]
+        exact ⟨(rmCircuit_other n cid).1, (rmCircuit_other n cid).2, Or.inr ⟨c, rfl, hsc, rfl⟩⟩
       · dsimp only; rw [if_neg hsc]; exact ⟨rfl, rfl, Or.inl rfl⟩
   have hloc : let r := destroyLocal (B := B) n signer cid
       r.1.relays = n.relays ∧
-      (r.1.exits = n.exits ∨ ∃ e, get n.exits cid = some e ∧ e.hop.peer = signer ∧ r.1.exits = del n.exits cid) ∧
+      (r.1.exits = n.exits ∨ ∃ e, get n.exits cid = some e ∧ e.hop.peer = signer ∧ r.1.exits = (rmExit n cid).exits) ∧
       (r.1.circuits = n.circuits ∨ ∃ c, get n.circuits cid = some c ∧ c.firstHop.map Hop.peer = some signer ∧
-        r.1.circuits = del n.circuits cid) := by
+        r.1.circuits = (rmCircuit n cid).circuits) := by
     unfold destroyLocal
     cases he : get n.exits cid with
     | none => exact ⟨hcirc.1, Or.inl hcirc.2.1, hcirc.2.2⟩
     | some e =>
       by_cases hse : signer = e.hop.peer
-      · dsimp only; rw [if_pos hse]; exact ⟨rfl, Or.inr ⟨e, rfl, hse.symm, rfl⟩, Or.inl rfl⟩
+      · dsimp only; rw [if_pos hse]
+        exact ⟨(rmExit_other n cid).1, Or.inr ⟨e, rfl, hse.symm, rfl⟩, Or.inl (rmExit_other n cid).2⟩
       · dsimp only; rw [if_neg hse]; exact ⟨hcirc.1, Or.inl hcirc.2.1, hcirc.2.2⟩
   unfold onDestroy
   cases ok with
@@ -240,7 +244,7 @@ theorem destroy_only_by_neighbour (n : Node) (signer cid : Nat) (ok : Bool) (rea
         | inl h => exact Or.inl h
         | inr h => exact Or.inr ⟨trivial, h⟩
     | some nx =>
-      refine ⟨Or.inr ⟨trivial, ?_⟩, Or.inl rfl, Or.inl rfl⟩
+      refine ⟨Or.inr ⟨trivial, ?_⟩, Or.inl (rmRelays_other n cid nx.next).1, Or.inl (rmRelays_other n cid nx.next).2⟩
       unfold viaRelay at hv
       cases hr : get n.relays cid with
       | none => simp [hr] at hv
@@ -256,6 +260,20 @@ theorem destroy_only_by_neighbour (n : Node) (signer cid : Nat) (ok : Bool) (rea
             exact ⟨nx', pv, rfl, hp, hs.symm, rfl⟩
           · simp [hs] at hv
 
+/-- with remove_tunnel_delay > 0 a destroy (or any other removal) pops nothing in the step that accepts it: the
+    entries keep routing until the delayed pop — only on_created's conversion removes its exit socket at once -/
+theorem deferred_removal_pops_nothing (n : Node) (hd : n.defer = true) (a b cid : Nat) :
+    (rmRelays n a b).relays = n.relays ∧ (rmExit n cid).exits = n.exits ∧
+    (∀ k, (get (rmCircuit n cid).circuits k).isSome = (get n.circuits k).isSome) := by
+  refine ⟨by simp [rmRelays, hd], by simp [rmExit, hd], ?_⟩
+  intro k
+  simp only [rmCircuit, hd, if_true]
+  cases hc : get n.circuits cid with
+  | none => rfl
+  | some c =>
+    by_cases hk : k = cid
+    · subst hk; simp [get_set_self, hc]
+    · simp [get_set_other _ _ _ _ hk]
 
 /-! ## traffic leaves only through the exit entry it was keyed for; replies are bound to that entry -/
 
@@ -570,23 +588,26 @@ theorem queue_own_step (n : Node) (e : Ev B) (hq : QueueOwn n) : QueueOwn (step 
   | rmCircuit cid =>
     refine qo_same ?_ hq
     simp only [step, apiRemoveCircuit]
-    repeat' (first | rfl | split)
+    repeat' (first | rfl | exact rmCircuit_exits _ _ | split)
   | rmExit cid =>
     simp only [step, apiRemoveExit]
     split
-    · exact qo_del _ rfl hq
+    · exact rmExit_qo _ _ hq
     · exact hq
   | rmRelay cid =>
     refine qo_same ?_ hq
     simp only [step, apiRemoveRelay]
-    repeat' (first | rfl | split | dsimp only)
+    repeat' (first | rfl | exact rmRelays_exits _ _ _ | split | dsimp only)
   | openStep cid => exact openStep_qo n cid hq
   | expireCreated cid => exact qo_same rfl hq
   | expireCreate num => exact qo_same rfl hq
   | expireRetry cid ch =>
     refine qo_same ?_ hq
     simp only [step, expireRetry]
-    repeat' (first | rfl | (rw [sendMsg_exits]) | split | dsimp only)
+    repeat' (first | rfl | exact rmCircuit_exits _ _ | (rw [sendMsg_exits]) | split | dsimp only)
+  | popCircuit cid => exact qo_same rfl hq
+  | popRelay cid => exact qo_same rfl hq
+  | popExit cid => exact qo_del cid rfl hq
 
 /-- … hence it holds after every history (unbounded, any interleaving of any number of circuits) from a node
     whose queues are empty, in particular from the initial node -/
@@ -690,6 +711,23 @@ theorem extension_completes_only_on_the_requesting_entry (n : Node) (cid ident k
     · left
       simp only [ne_eq, hpeer, not_false_eq_true, if_true]
       exact ⟨trivial, trivial, trivial⟩
+
+/-- the route a relay has established cannot be replaced by a late answer to an earlier extend request of the same
+    circuit: the conversion removes the exit socket under `rq.fromId` AT ONCE — with or without remove_tunnel_delay
+    (`n.defer` is not consulted) — so by `extension_completes_only_on_the_requesting_entry` any later CREATED for a
+    request with the same `fromId` finds no exit entry and installs nothing -/
+theorem conversion_removes_the_exit_socket_at_once (n : Node) (cid ident key authPk dhRef : Nat) (ch : Choice)
+    (rq : CreateReq) (rest : List CreateReq) (e : ExitE) (hpop : popCreate n.creates ident = some (rq, rest))
+    (he : get n.exits rq.fromId = some e) (hsame : e.hop = rq.peer) (hfree : n.inUse rq.toId = false) :
+    let r := onCreated A n cid ident key authPk dhRef ch
+    get r.1.exits rq.fromId = none ∧ (get r.1.relays rq.fromId).isSome = true := by
+  unfold onCreated
+  have h' : ({ n with creates := rest } : Node).inUse rq.toId = false := hfree
+  simp only [hpop, he, ne_eq, hsame, not_true_eq_false, if_false, h', Bool.false_eq_true]
+  refine ⟨get_del_self _ _, ?_⟩
+  unfold sendMsg
+  rw [(sendCell_relays A _ _ _ _).1, get_set_self]
+  rfl
 
 /-- and whatever it does, it touches only the two ids of that extension: every other relay entry and every other exit
     entry is as before (no freshness assumption needed for this; what is NOT excluded is that `rq.toId` or `rq.fromId`
